@@ -637,3 +637,77 @@ var md4Model = map[string]intrinsic{
 		return []callRes{{st, &ArrayVal{ElemT: types.Typ[types.Uint8], Scalar: true, Elem: es, C: &ArrLit{Vals: dig, Rest: &ArrFill{Val: e.C.NumConst(big.NewInt(0), es)}}, Len: e.idx(16)}}}
 	},
 }
+
+// ---- encoding/base64 as a function (concrete-length input) with decoding as its inverse ----
+
+func b64Name(in ssa.Instruction) string {
+	var cc *ssa.CallCommon
+	switch c := in.(type) {
+	case *ssa.Call:
+		cc = &c.Call
+	case *ssa.Defer:
+		cc = &c.Call
+	default:
+		return ""
+	}
+	if len(cc.Args) == 0 {
+		return ""
+	}
+	if u, ok := cc.Args[0].(*ssa.UnOp); ok {
+		if g, ok := u.X.(*ssa.Global); ok && g.Pkg != nil && g.Pkg.Pkg.Path() == "encoding/base64" {
+			return "b64_" + g.Name()
+		}
+	}
+	return ""
+}
+
+func b64EncLen(g string, n int) int {
+	if strings.HasPrefix(g, "b64_Raw") {
+		return (n*8 + 5) / 6
+	}
+	return (n + 2) / 3 * 4
+}
+
+func intrB64EncodeFn(e *Exec, st *State, fr *Frame, args []Val, in ssa.Instruction, rt types.Type) []callRes {
+	name := b64Name(in)
+	if name != "" && !e.IntMode {
+		if src, ok := e.bytesOf(st, args[len(args)-1]); ok {
+			e.UsedIntrinsics["deterministic-function model of base64 encoding (uninterpreted, injective: decoding inverts it)"] = true
+			if len(src) == 0 {
+				return []callRes{{st, e.strConst("")}}
+			}
+			out := e.ufBytes(name, b64EncLen(name, len(src)), nil, src)
+			// the alphabet is ASCII
+			for _, b := range out {
+				st.assume(e.C.ULt(b, e.C.BVu(0x80, 8)))
+			}
+			es := e.elemSort(types.Typ[types.Uint8])
+			return []callRes{{st, &StringVal{C: &ArrLit{Vals: out, Rest: &ArrFill{Val: e.C.NumConst(big.NewInt(0), es)}}, Off: e.idx(0), Len: e.idx(int64(len(out)))}}}
+		}
+	}
+	return intrB64Encode(e, st, fr, args, in, rt)
+}
+
+func intrB64DecodeFn(e *Exec, st *State, fr *Frame, args []Val, in ssa.Instruction, rt types.Type) []callRes {
+	name := b64Name(in)
+	if name != "" && !e.IntMode {
+		if enc, ok := e.bytesOf(st, args[len(args)-1]); ok && len(enc) > 0 {
+			// the text is the encoding of n bytes for the n that gives this length
+			for n := 1; n <= len(enc); n++ {
+				if b64EncLen(name, n) != len(enc) {
+					continue
+				}
+				fname := fmt.Sprintf("%s_%d_o%d", name, n, len(enc))
+				if m, ok := e.ufInverse(enc, fname, nil, n); ok {
+					return []callRes{{st, TupleVal{e.byteSliceOf(st, m, "b64dec"), errNil(e)}}}
+				}
+			}
+		}
+	}
+	return intrB64Decode(e, st, fr, args, in, rt)
+}
+
+func init() {
+	intrinsics["(*encoding/base64.Encoding).DecodeString"] = intrB64DecodeFn
+	intrinsics["(*encoding/base64.Encoding).EncodeToString"] = intrB64EncodeFn
+}
